@@ -231,7 +231,8 @@ func unmarshalUnit(prog *Program, ms *MsgSchema, o unmarshalOpts) (u *Unit) {
 							if in, ok := st.env[c.info.Defs[lit.Type.Params.List[0].Names[0]]].(StructV); ok {
 								if d, ok := in.F["Depth"].(Scalar); ok {
 									c.addObl(Obl{Name: fmt.Sprintf("%s/%s/depth[callee budget < caller budget]", u.Name, fieldName), Kind: "depth", Guard: st.guard,
-										Goal: and(c.ltIdx(c.ilit(0), rl.T), c.ltIdx(rl.T, d.T)), Pos: c.pos(call.Pos()), Text: "nested decode gets a recursion budget that is positive and strictly smaller than input.Depth"})
+										Goal: and(c.ltIdx(c.ilit(0), d.T), and(c.ltIdx(rl.T, d.T), not("(= "+rl.T+" "+c.ilit(0)+")"))), Pos: c.pos(call.Pos()),
+										Text: "a nested decode happens only with a live budget (input.Depth > 0) and gets one that is strictly smaller and not the zero proto.UnmarshalOptions would re-default; a callee handed a non-positive budget returns the recursion error"})
 								}
 							}
 						}
